@@ -46,8 +46,9 @@ type Opts struct {
 	Nodes  int
 	Tags   int
 	Leaf   int
-	NoVar  bool
-	Finite bool
+	NoVar  bool // string values never start with '?'
+	NoVarKeys bool // map keys never start with '?'
+	Finite bool // numbers are finite
 	Pool   []string
 }
 
@@ -285,11 +286,47 @@ func Note(name string)                 {}
 // MapOrderInsertion (intrinsic): iterate maps in insertion order only (reference runs).
 func MapOrderInsertion(on bool) {}
 
+// NoOrderLemma (intrinsic): explore every map order also inside the functions covered by an order lemma
+// (used by the lemma harnesses themselves).
+func NoOrderLemma(on bool) {}
+
 // Boolean connectives that do not fork the symbolic search.
 func And(a, b bool) bool     { return a && b }
 func Or(a, b bool) bool      { return a || b }
 func Not(a bool) bool        { return !a }
 func Implies(a, b bool) bool { return !a || b }
+
+// Possible (intrinsic): natively c; symbolically "c is not already known to be false on this path"
+// (used to skip work, never to decide anything).
+func Possible(c bool) bool { return c }
+
+// Fork-free conditionals (intrinsics): under the symbolic executor they build one term.
+func IteBool(c, a, b bool) bool {
+	if c {
+		return a
+	}
+	return b
+}
+func IteInt(c bool, a, b int) int {
+	if c {
+		return a
+	}
+	return b
+}
+func IteStr(c bool, a, b string) string {
+	if c {
+		return a
+	}
+	return b
+}
+
+// SuffixFrom (intrinsic): s[n:] when len(s) >= n, "" otherwise.
+func SuffixFrom(s string, n int) string {
+	if len(s) < n {
+		return ""
+	}
+	return s[n:]
+}
 
 // IsNaN (intrinsic).
 func IsNaN(f float64) bool { return f != f }
